@@ -410,7 +410,34 @@ def run_call_order(inst):
     S.count("call_orders_checked")
 
 
+def run_respan(inst):
+    """One object is asked everything, its public `octaves` (and back) is changed in place, and it is asked again:
+    every answer is the one a scale built afresh with the new span gives."""
+    S = engine.S
+    label = "%s(%s)" % (inst[0], ", ".join(repr(x) for x in inst[1:]))
+    sc = make(inst)
+    for step, n in enumerate([inst[2], inst[2] + 1, inst[2], inst[2] + 2, 1]):
+        if step:
+            sc.octaves = n
+        fresh = make(inst[:2] + [n] + inst[3:])
+        other = make(inst[:2] + [n + 1] + inst[3:])
+        fa, fd = list(fresh.ascending()), list(fresh.descending())
+        got = [list(sc.ascending()), list(sc.descending()), len(sc), sc == fresh, sc != fresh, fresh == sc, sc == other, other == sc, sc != other]
+        want = [fa, fd, len(fa), True, False, True, False, False, True]
+        S.trans(12)
+        if got != want:
+            bad = [i for i in range(len(want)) if got[i] != want[i]][0]
+            S.problem("%s after its octaves attribute was set to %r (step %d): %s" % (
+                label, n, step, ["ascending()", "descending()", "len()", "== a fresh scale of that span", "!= a fresh scale of that span",
+                                 "a fresh scale of that span == it", "== a scale one octave longer", "a scale one octave longer == it", "!= a scale one octave longer"][bad]),
+                want[bad], got[bad])
+            return
+    S.outcome((inst[0], len(sc)))
+    S.count("respanned_objects")
+
+
 CLAUSES = {
+    "respan": run_respan,
     "call_order": run_call_order,
     "ascending": run_ascending,
     "descending": run_descending,
@@ -454,6 +481,8 @@ def explore(ctx):
                 ctx.product(clause, [(c, p, [x for x in t if len(x) <= 2], [3, 4]) for c, p, t in instances(k, [3, 4])], gen_instances)
     if ctx.want("call_order"):
         ctx.product("call_order", [(c, p, t, [1]) for c, p, t in instances(k, [1])], gen_instances)
+    if ctx.want("respan"):
+        ctx.product("respan", [(c, p, [x for x in t if len(x) <= 2], [1, 2]) for c, p, t in instances(k, [1, 2])], gen_instances)
     if ctx.want("len_eq"):
         tonics = ctx.pick(["C", "A", "Bb", "F#", "Eb", "B"],
                           ["C", "C#", "Db", "D", "Eb", "E", "F", "F#", "G", "Ab", "A", "Bb", "B"])
